@@ -16,7 +16,7 @@
 (*         run() returned; gone: task struct dropped = parent receiver,    *)
 (*         mailbox receiver and sender clone released)                     *)
 (*      and supervisor HANDLE state hnd:                                   *)
-(*        none | held | stopwait | returned | dropped                      *)
+(*        none | held | stopwait | stopjoin | returned | dropped           *)
 (*   act[a]  = [pc, par, cleaned]   SupervisedActor::run program counter:  *)
 (*        none | setup | loop | run | cleanup | drop | done                *)
 (*   chan[c] = [rx, pend]  broadcast channel owned by supervisor c (or by  *)
@@ -49,7 +49,7 @@ Subtree(S, p) == LET ch == Children(S, p) IN ch \cup UNION {Subtree(S, c) : c \i
 
 SendersAlive(S, c) ==
   IF c = RT THEN S.rt.pc \notin {"none", "returned"}
-  ELSE S.sup[c].hnd \in {"held", "stopwait"} \/ S.sup[c].st \notin {"none", "gone"}
+  ELSE S.sup[c].hnd \in {"held", "stopwait", "stopjoin"} \/ S.sup[c].st \notin {"none", "gone"}
 \* broadcast::Receiver::recv completes: a message (or Lagged) is there, or every sender is gone (Closed)
 RecvReady(S, r, c) == r \in S.chan[c].pend \/ ~SendersAlive(S, c)
 Unsub(S, r, c) == [S EXCEPT !.chan[c] = [rx |-> @.rx \ {r}, pend |-> @.pend \ {r}]]
@@ -103,8 +103,12 @@ StopG(S, s)     == S.sup[s].hnd = "held" /\ s # Root
 StopE(S, s)     == [S EXCEPT !.sup[s].hnd = "stopwait",
                              !.sup[s].mbox = IF S.sup[s].st = "gone" THEN @ ELSE @ + 1,
                              !.need[s] = Subtree(S, s)]
-\* ... then mbox_tx.closed().await: completes when the task's mailbox receiver is dropped
-StopRetG(S, s)  == S.sup[s].hnd = "stopwait" /\ S.sup[s].st = "gone"
+\* ... then mbox_tx.closed().await: completes when the task's mailbox receiver is dropped (or closed); since fix
+\* f3903f9 stop() then tells whatever is (still / newly) subscribed to this supervisor's control channel to stop ...
+StopTellG(S, s) == S.sup[s].hnd = "stopwait" /\ S.sup[s].st = "gone"
+StopTellE(S, s) == [S EXCEPT !.sup[s].hnd = "stopjoin", !.chan[s].pend = S.chan[s].rx]
+\* ... and waits for that channel to close (ctrl_tx.closed().await) before it returns
+StopRetG(S, s)  == S.sup[s].hnd = "stopjoin" /\ S.chan[s].rx = {}
 StopRetE(S, s)  == [S EXCEPT !.sup[s].hnd = "returned"]
 DropG(S, s)     == S.sup[s].hnd = "held" /\ s # Root
 DropE(S, s)     == [S EXCEPT !.sup[s].hnd = "dropped"]
